@@ -30,8 +30,8 @@ def _anc(node):
 WRITER_GUARDS = {
     "pre-tasks": ({"self.pre_tasks"}, "self.pre_tasks"),
     "init-tasks": ({"self.init_tasks"}, "self.init_tasks"),
-    "meta": ({"self.meta is not None", "self._meta is not None"}, "self.meta"),
-    "task": ({"self.task is not None"}, "self.task"),
+    "meta": ({"not self.meta is None", "not self._meta is None"}, "self.meta"),
+    "task": ({"not self.task is None"}, "self.task"),
     "file": ({"not self.xpmtype._package"}, "self.xpmtype._file"),
 }
 ALWAYS = {"id", "module", "type", "typename", "identifier", "fields"}
@@ -98,7 +98,7 @@ def r1_record_keys(chk: Check):
             chk.violation(chk.fkey(f, f"key {k}"), f"the object record no longer writes `{k}` ({source} would be lost on reload)", loc)
             continue
         n, gs = wk[k]
-        ok = len(gs) == 1 and gs[0][1] is True and gs[0][0] in allowed
+        ok = len(gs) == 1 and (gs[0][0] if gs[0][1] else "not " + gs[0][0]) in allowed
         if k == "file":
             ok = gs in ([("self.xpmtype._package", False)],)
         chk.require(ok, chk.fkey(f, f"key {k} written whenever set"),
@@ -136,6 +136,30 @@ def r1_record_keys(chk: Check):
     chk.require(ok, "core.objects:ConfigInformation.load_objects:restores fields", "every written field must be restored (configuration: __xpm__.set(..., bypass=True); instance: setattr)", chk.loc(lo.module, lo.node))
     if len(loops) == 1:
         chk.require(not any(isinstance(x, (ast.Continue, ast.Break)) for x in ast.walk(loops[0])), "core.objects:ConfigInformation.load_objects:no skipped field", "the field loop of the loader skips some fields", chk.loc(lo.module, loops[0]))
+        heads = [n for n in gl.live if n.kind == "for" and n.ast is loops[0]]
+        if heads:
+            h = heads[0]
+            start = [m for m, l in h.succ if l == "loop"][0]
+            setters = [n for n in gl.live if any((src(c.func).endswith("__xpm__.set") or dotted(c.func) == "setattr") for c in n.calls())]
+            chk.require(_must_pass_noexc(gl, start, h, setters), "core.objects:ConfigInformation.load_objects:every field restored",
+                        "some path through the loader's field loop restores nothing for a written field (e.g. a None value is skipped): an optional parameter explicitly set to None "
+                        "would come back holding its declared default, and the recomputed identifier differs", chk.loc(lo.module, loops[0]))
+
+
+def _must_pass_noexc(g, start, target, through) -> bool:
+    av = {t.id for t in through}
+    seen, stack = set(), [start]
+    while stack:
+        n = stack.pop()
+        if n.id in seen or n.id in av:
+            continue
+        seen.add(n.id)
+        if n is target:
+            return False
+        for m, l in n.succ:
+            if l != "exc":
+                stack.append(m)
+    return True
 
 
 def r2_value_tags(chk: Check):
@@ -198,7 +222,7 @@ def r2_value_tags(chk: Check):
     g2 = CFG(go.node)
     for n, cc in g2.call_nodes(lambda cc: src(cc).endswith("__collect_objects__(self.task, objects, context)")):
         gs = [(src(x.ast), pol) for x, pol in g2.guards(n) if x.kind == "test" and "context.serialized" not in src(x.ast)]
-        ok = gs in ([("self.task is not None", True), ("self.task is not self", True)], [("self.task is not None", True), ("self.task is not self.pyobject", True)])
+        ok = gs in ([("self.task is None", False), ("self.task is self", False)], [("self.task is None", False), ("self.task is self.pyobject", False)])
         chk.require(ok, chk.fkey(go, "task collected whenever referenced"), f"the producing task is collected under {gs}; it must be collected whenever it is set (and is not the object itself)", chk.loc(go.module, cc))
 
 
@@ -207,7 +231,7 @@ def r3_tristate(chk: Check):
     f, g, var, wk = writer_keys(chk)
     if "meta" in wk:
         n, gs = wk["meta"]
-        chk.require(gs in ([("self.meta is not None", True)], [("self._meta is not None", True)]), chk.fkey(f, "meta written under is-not-None"),
+        chk.require(gs in ([("self.meta is None", False)], [("self._meta is None", False)]), chk.fkey(f, "meta written under is-not-None"),
                     f"the tri-state meta flag is written under {gs}: an explicit meta=False (which forces an ignored parameter into the signature) is lost and the reloaded identifier differs", chk.loc(f.module, n.ast))
     lo = tree.func("core.objects", "ConfigInformation.load_objects")
     gl = CFG(lo.node)
@@ -217,7 +241,7 @@ def r3_tristate(chk: Check):
     for t, v, s in st:
         for n in gl.nodes_of(t):
             gs = [(rd.canon(x.ast, x), pol) for x, pol in gl.guards(n) if x.kind == "test" and "as_instance" not in src(x.ast)]
-            ok = all(("is not None" in c and pol is True) or ("is None" in c and pol is False) for c, pol in gs if "meta" in c)
+            ok = all(("is None" in c and pol is False) for c, pol in gs if "meta" in c)
             chk.require(ok, chk.fkey(lo, "meta read under is-not-None"), f"the tri-state meta flag is restored under {gs} (truthiness loses meta=False)", chk.loc(lo.module, s))
 
 
